@@ -9,7 +9,7 @@ from .. import nets, ops, shapes, stubs
 from ..runner import harness
 
 P_QUICK = {"members": 3, "smembers": 3, "bulk": 2, "sbulk_first": 3, "sbulk_rest": 1, "max_orders": [None, 1]}
-P_THOROUGH = {"members": 4, "smembers": 4, "bulk": 2, "sbulk_first": 3, "sbulk_rest": 2, "max_orders": [None, 0, 1, 2]}
+P_THOROUGH = {"members": 4, "smembers": 4, "bulk": 2, "sbulk_first": 3, "sbulk_rest": 1, "max_orders": [None, 0, 1, 2]}
 
 
 def _shape(s):
@@ -136,7 +136,7 @@ def spec(tier, seed):
         qmax = 3
     else:
         shp = shapes.shapes_S_upto(4)
-        small = set(shapes.shapes_S_upto(3))
+        small = set(shapes.shapes_S_upto(2) + shapes.shapes_S(3, 0))
         P = P_THOROUGH
         qmax = 4
     units = []
